@@ -18,12 +18,12 @@ RULE = ('scenarios = circuits of MC_C09 with DC, sinusoidal and periodic sources
 
 def models(tier, seed):
     if tier == 'quick':
-        return [dict(module='MC_C09.tla', cfg='MC_C09_quick.cfg', batch=50), dict(module='MC_C09.tla', cfg='MC_C09_tenth.cfg', batch=50)]
-    return [dict(module='MC_C09.tla', cfg='MC_C09_thorough.cfg', batch=50), dict(module='MC_C09.tla', cfg='MC_C09_tenth.cfg', batch=50)]
+        return [dict(module='MC_C09.tla', cfg='MC_C09_quick.cfg', batch=50), dict(module='MC_C09.tla', cfg='MC_C09_tenth.cfg', batch=50), dict(module='MC_C09.tla', cfg='MC_C09_near.cfg', batch=20)]
+    return [dict(module='MC_C09.tla', cfg='MC_C09_thorough.cfg', batch=50), dict(module='MC_C09.tla', cfg='MC_C09_tenth.cfg', batch=50), dict(module='MC_C09.tla', cfg='MC_C09_near.cfg', batch=20)]
 
 
 def required_tags(tier):
-    return ['periodic', 'ac'] + (['dc'] if tier == 'thorough' else []) + ['coincide_exact', 'coincide_computed', 'wmax=0', 'wmax_on_harmonic', 'wmax_between', 'one_sided', 'two_sided', 'freqs>=4', 'pi1', 'pi2']
+    return ['periodic', 'ac'] + (['dc'] if tier == 'thorough' else []) + ['coincide_exact', 'coincide_computed', 'wmax=0', 'wmax_on_harmonic', 'wmax_between', 'one_sided', 'two_sided', 'freqs>=4', 'pi1', 'pi2', 'near_harmonic']
 
 
 def line_value(parts, field, key, unit):
@@ -58,6 +58,8 @@ def replay(case, ctx):
         for w0 in per:
             if a <= wmax and (a / w0).denominator == 1:
                 tg.add('coincide_computed' if w0.denominator == 10 else 'coincide_exact')
+    if any(a.denominator >= 1000 for a in acs):
+        tg.add('near_harmonic')
     if wmax == 0:
         tg.add('wmax=0')
     elif per and any((wmax / w0).denominator == 1 for w0 in per):
